@@ -44,14 +44,18 @@ def cases(draw):
             "descend": draw(st.lists(st.sampled_from(["descend", "descend", "descend", "skip", "reserve"]),
                                     min_size=1, max_size=4)),
             "val": draw(gen.nondefault_values(default)),
-            "sp": draw(st.one_of(st.none(), st.integers(0, 8)))}
+            "sp": draw(st.one_of(st.none(), st.integers(0, 8))),
+            # an uncompressed source may carry an active range narrower than its shape (a tile of a split rank):
+            # it presents that range; all its elements lie inside
+            "aact": draw(st.sampled_from([None, None, [draw(st.integers(0, 6)), draw(st.integers(0, 6))]]))}
 
 
-def presented(tree, d, default, fmt, shape0):
+def presented(tree, d, default, fmt, shape0, active=None):
     """[(coord, child | None)] offered by a fiber: None = absent coordinate of an uncompressed rank"""
     if fmt == "U":
         m = {c: ch for c, ch in tree}
-        return [(c, m.get(c)) for c in range(shape0)]
+        lo, hi = active if active else (0, shape0)
+        return [(c, m.get(c)) for c in range(lo, hi)]
     return [(c, ch) for c, ch in model.presented(tree, d, default)]
 
 
@@ -71,6 +75,14 @@ def check(case, rec):
             a_t.setFormat(as_["rank_ids"][0], "U")
         a = a_t.getRoot()
     afmt = "U" if case["ahow"] in ("U", "unowned-U") else "C"
+    aact = None
+    if afmt == "U" and case.get("aact"):
+        cs = [c for c, _ in as_["tree"]]
+        lo = min([case["aact"][0] % shape[0]] + cs)
+        hi = max([lo + 1 + case["aact"][1] % (shape[0] - lo)] + [c + 1 for c in cs])
+        if (lo, hi) != (0, shape[0]):
+            aact = (lo, hi)
+            a.setActive(aact)
     plan = machine.Plan(case["plan"], case["descend"], case["val"], default)
     plan.shape = list(shape)
 
@@ -90,7 +102,7 @@ def check(case, rec):
 
     def walk(ztree, atree, lvl, prefix, fmt):
         zmap = {c: ch for c, ch in ztree}
-        for c, ach in presented(atree, d - lvl, adefault, fmt, shape[lvl]):
+        for c, ach in presented(atree, d - lvl, adefault, fmt, shape[lvl], aact if lvl == 0 else None):
             pt = prefix + (c,)
             expected_offers.append((pt, lvl))
             if lvl == d - 1:
@@ -149,7 +161,7 @@ def check(case, rec):
     stats = {"offered": 0, "written": 0, "removed": 0}
     sp = None
     if d == 1 and case["sp"] is not None and z.coords:
-        first = next((c for c, _ in presented(as_["tree"], 1, adefault, afmt, shape[0])), None)
+        first = next((c for c, _ in presented(as_["tree"], 1, adefault, afmt, shape[0], aact)), None)
         if first is not None:
             legal = [p for p in range(len(z.coords) + 1) if p == 0 or first > z.coords[p - 1]]
             sp = legal[case["sp"] % len(legal)]
@@ -197,10 +209,8 @@ def check(case, rec):
         for c, ch in after:
             pt = prefix + (c,)
             if pt in reserved:
-                # structure the body created by hand below the offered sub-fiber is the body's business
-                if len(ch) == 0:
-                    raise Violation("reserved-lost", f"the body reserved a path below {pt} but the sub-fiber "
-                                    f"is empty after the loop")
+                # structure the body created by hand below the offered sub-fiber holds no value: whether the
+                # loop keeps it (as created) or drops it ("no sub-fiber behind") is not decided by the statement
                 continue
             if c not in bmap:
                 sub = {p: v for p, v in want.items() if p[:len(pt)] == pt}
@@ -221,9 +231,6 @@ def check(case, rec):
             if so is not None and Payload.get(so) == default:
                 raise Violation("explicit-default-left", f"the body left {pt} at the default but an element holding "
                                 f"the default is stored there after the loop (z before: {z_before_tree})")
-    for pt in reserved:
-        if machine_stored(z, pt) is None:
-            raise Violation("reserved-lost", f"the body reserved a path below {pt} but the loop removed the sub-fiber")
     # coordinates of z outside a: same objects, same snapshot
     offered_top = {pt[0] for pt, lvl in expected_offers if lvl == 0}
     for c, p in z_before_objs.items():
@@ -243,6 +250,7 @@ def check(case, rec):
     first = expected_offers[0][0][0] if expected_offers else None
     rec.cls("inserting", zmax is not None and first is not None and first < zmax)
     rec.cls("source-U", afmt == "U")
+    rec.cls("source-U-narrowed-active-range", aact is not None)
     rec.cls("source-unowned-U", case["ahow"] == "unowned-U")
     rec.cls("source-default-differs", adefault != default)
     rec.cls("z-owned" if m.owned else "z-unowned")
@@ -370,7 +378,28 @@ def check_lazy(case, rec):
     rec.nontrivial(created_removed > 0 and retained > 0 and bool(cont))
 
 
+# ---------------------------------------------------------------- long destinations (position arithmetic over distance)
+@st.composite
+def long_cases(draw):
+    """one level, a destination with many stored elements and a source with a few coordinates spread over the
+    whole shape: the loop has to move far through z between two offered coordinates"""
+    S = draw(st.sampled_from([24, 40, 50]))
+    default = draw(st.sampled_from([0, 0, 2]))
+    zc = sorted(draw(st.sets(st.integers(0, S - 1), min_size=10, max_size=30)))
+    ac = sorted(draw(st.sets(st.integers(0, S - 1), min_size=1, max_size=4)))
+    z = {"rank_ids": ["M"], "shape": [S], "default": default,
+         "tree": [[c, draw(gen.values(default, p_default=0.1))] for c in zc]}
+    a = {"rank_ids": ["M"], "shape": [S], "default": default,
+         "tree": [[c, draw(gen.nondefault_values(default))] for c in ac]}
+    return {"z": z, "a": a, "zhow": draw(st.sampled_from(["ref", "fiber", "unowned"])),
+            "ahow": draw(st.sampled_from(["ref", "unowned"])),
+            "plan": list(draw(st.permutations(["leave", "assign", "assign", "acc", "default", "writethendefault"])))[
+                :draw(st.integers(1, 6))],
+            "descend": ["descend"], "val": draw(gen.nondefault_values(default)), "sp": None}
+
+
 PARTS = [Part("populate", cases(), check, n_quick=4000, n_thorough=30000),
+         Part("long-destination", long_cases(), check, n_quick=400, n_thorough=4000),
          Part("lazy-source", lazy_cases(), check_lazy, n_quick=1500, n_thorough=8000)]
 
 
